@@ -34,7 +34,7 @@ def case_from_tlc(obj, h, g):
             k //= 5
         if k % 3 == 0:
             order.append(names[k % 5])
-    return {"case": "tlc-" + h, "mode": "real", "history": obj["history"], "order": order}
+    return {"case": "tlc-" + h, "mode": "real", "history": obj["history"], "order": order, "decoy": int(h[8:10], 16) % 4 == 0}
 
 
 def nontrivial(rec):
